@@ -40,6 +40,7 @@ func main() {
 			os.Exit(2)
 		}
 		f(c)
+		c.Done()
 		if err := c.Close(); err != nil {
 			fmt.Fprintln(os.Stderr, err)
 			os.Exit(2)
